@@ -42,6 +42,28 @@ fn emit_c16(em: &mut Emit, elems: &[AeElem], ows: u8) {
     em.case(&format!("GZIPQ ae={}", opt_hex(Some(&v))), show_bool(r), &p, &class);
 }
 
+/// Header values for the call-history cases: every ordered pair (x, y) is exercised as "a call
+/// with x, then a call with y" on one thread, y's outcome being the case. Letter-case variants are
+/// included (the code matches codings and `q` case-sensitively, so they are other values);
+/// `Some(b)` is the RFC oracle where the value is inside C16's grammar.
+pub fn history_values() -> Vec<(Option<Vec<u8>>, Option<bool>)> {
+    let v = |s: &str, w: Option<bool>| (Some(s.as_bytes().to_vec()), w);
+    vec![
+        (None, Some(false)),
+        v("gzip", Some(true)),
+        v("GZIP", None),
+        v("Gzip;q=1", None),
+        v("identity", Some(false)),
+        v("gzip;q=0", Some(false)),
+        v("gzip;Q=0", None),
+        v("*", Some(true)),
+        v("*;q=0", Some(false)),
+        v("gzip, identity;q=0", Some(true)),
+        v("GZIP, IDENTITY;Q=0", None),
+        v("br", Some(false)),
+    ]
+}
+
 pub fn all_elems() -> Vec<AeElem> {
     let mut v = vec![];
     for c in CODINGS {
@@ -91,6 +113,21 @@ pub fn c16(em: &mut Emit, thorough: bool, seed: u64) {
         let k = 3 + rng.usize(2);
         let l: Vec<AeElem> = (0..k).map(|_| rng.pick(&elems).clone()).collect();
         emit_c16(em, &l, rng.below(3) as u8);
+    }
+    // call histories: should_gzip(x), then should_gzip(y); the outcome for y is the case
+    let hv = history_values();
+    for (x, _) in &hv {
+        for (y, want) in &hv {
+            let _ = call_should_gzip(x.as_deref());
+            let r = call_should_gzip(y.as_deref());
+            let p = match want {
+                Some(w) => pred(r == Ok(*w), || {
+                    format!("after a call with {:?}: should_gzip={} but RFC 7231 says {}", x.as_ref().map(|b| String::from_utf8_lossy(b).to_string()), show_bool(r), w)
+                }),
+                None => pred(r.is_ok(), || "should_gzip panicked".into()),
+            };
+            em.case(&format!("GZIPQ ae={}", opt_hex(y.as_deref())), show_bool(r), &p, &format!("history:{}", show_bool(r)));
+        }
     }
     let n = if thorough { 200_000 } else { 10_000 };
     for _ in 0..n {
@@ -234,23 +271,32 @@ pub fn gunzip_ok(data: &[u8], expect: &[u8]) -> bool {
 pub fn c17(em: &mut Emit, thorough: bool, seed: u64) {
     let mut rng = Rng::new(seed ^ 0xC17);
     let elems = all_elems();
-    let mut aes: Vec<(Option<Vec<u8>>, Option<bool>)> = vec![(None, Some(false)), (Some(vec![]), Some(false))];
+    // (header value, RFC oracle if grammatical, history entry?)
+    let mut aes: Vec<(Option<Vec<u8>>, Option<bool>, bool)> = vec![(None, Some(false), false), (Some(vec![]), Some(false), false)];
     for a in &elems {
-        aes.push((Some(render_ae(&[a.clone()], 0)), Some(spec_gzip(&[a.clone()]))));
+        aes.push((Some(render_ae(&[a.clone()], 0)), Some(spec_gzip(&[a.clone()])), false));
+    }
+    // call histories: a response built for x, then responses built for y (one thread)
+    let hv = history_values();
+    for (x, wx) in &hv {
+        for (y, wy) in &hv {
+            aes.push((x.clone(), *wx, true));
+            aes.push((y.clone(), *wy, true));
+        }
     }
     let n = if thorough { 3000 } else { 60 };
     for _ in 0..n {
         let k = 2 + rng.usize(3);
         let l: Vec<AeElem> = (0..k).map(|_| rng.pick(&elems).clone()).collect();
-        aes.push((Some(render_ae(&l, rng.below(3) as u8)), Some(spec_gzip(&l))));
+        aes.push((Some(render_ae(&l, rng.below(3) as u8)), Some(spec_gzip(&l)), false));
     }
     for _ in 0..(n / 3) {
-        aes.push((Some(malformed_ae(&mut rng)), None));
+        aes.push((Some(malformed_ae(&mut rng)), None, false));
     }
     let payload: Vec<u8> = b"hello, hello, hello, streaming world ".repeat(8);
     let methods = ["GET", "HEAD", "POST", "PUT", "X-EXT"];
     let mut case_no = 0usize;
-    for (ae, want) in &aes {
+    for (ae, want, history) in &aes {
         for level in 0..=9u32 {
             // not the full product with chunk sizes and methods: rotate them
             let chunk = *rng.pick(&[1usize, 2, 4, 7, 4096, 4096, 65536]);
@@ -259,6 +305,10 @@ pub fn c17(em: &mut Emit, thorough: bool, seed: u64) {
                     continue;
                 }
                 for as_parts in [false, true] {
+                    // history entries: one GET at level 6 and one HEAD at level 9 each
+                    if *history && !((level == 6 && mi == 0 && !as_parts) || (level == 9 && mi == 1 && as_parts)) {
+                        continue;
+                    }
                     let r = PartsOrReq {
                         method: http::Method::from_bytes(m.as_bytes()).unwrap(),
                         ae: ae.clone(),
